@@ -805,7 +805,11 @@ LONG_NUMBERS = ['9' * 4300, '9' * 4301, '1' + '0' * 5000, '0x' + 'f' * 3600, '0x
                 '1_' * 2200 + '1', ' ' + '7' * 4301 + ' ']
 ERROR_CODES = ['1', '6', '5', '0', '17', '28', '99', 'x', '', ' 5 ', '1_0', '-3', '5.0', '\u0665', '4294967296',
                '9' * 4301] + ISDIGIT_NOT_INT + HOSTILE[:4]
-NUMERIC_TEXT = HOSTILE + ISDIGIT_NOT_INT + LONG_NUMBERS + ['INF', '-INF', 'inf', 'NaN', 'nan', '1e400', '-1e400', '1_0', '٣', '0x', '0x1F', '-0x80', '+', '-', '',
+FLOAT_EDGE = ['-0.5', '1e308', '4.9e-324', '9007199254740993.0', '-1e22', '1.7976931348623157e308', '0.999999', '-3.999',
+              '2.5e-1', '1e23', '-255.9', '255.5', '256.0', '-128.9', '4294967295.5', '1.8446744073709552e19',
+              str(2 ** 1024 - 2 ** 970), str(2 ** 1024 - 2 ** 970 - 1), str(-(2 ** 1024 - 2 ** 970)), str(2 ** 1023),
+              hex(2 ** 1024 - 2 ** 970), hex(2 ** 1024 - 2 ** 970 - 1)]
+NUMERIC_TEXT = HOSTILE + ISDIGIT_NOT_INT + LONG_NUMBERS + FLOAT_EDGE + ['INF', '-INF', 'inf', 'NaN', 'nan', '1e400', '-1e400', '1_0', '٣', '0x', '0x1F', '-0x80', '+', '-', '',
                 ' 12 ', '3.7', '1e3', '256', '-129', '65536', '4294967296', '18446744073709551616', '-9223372036854775809',
                 '9' * 400, '1' + '0' * 310, '0b1', '0o7', '1L', '१२', '1,5', '1.', '.5', 'Infinity', '1e', 'abc', '１']
 ATTR_GARBAGE = HOSTILE + ISDIGIT_NOT_INT + ['9' * 4301] + ['', 'x', ' ', '1x', '-1', '0', '99999999999999999999', 'true ', 'TRUE', 'yes', 'uint8\n', 'Uint8', 'UINT8',
@@ -1129,6 +1133,51 @@ def transport_exceptions():
            ux.LocationParseError('x'), ux.SSLError('x'), ux.MaxRetryError(None, 'u', None), ux.ProxyError('p', Exception('e')),
            ux.IncompleteRead(1, 2), ux.InvalidHeader('x'), ux.ResponseError('x'), ux.NewConnectionError(None, 'x'),
            ux.ConnectTimeoutError('x'), ux.TimeoutError('x'), ux.ClosedPoolError(None, 'x'), ux.EmptyPoolError(None, 'x')]
+    # MaxRetryError / requests exceptions with systematically varied messages (the regular expressions of
+    # pywbem_urllib3_exception: 'Caused by', quote stripping, pool / WBEMConnection prefixes, '<...>: ', read timeout)
+    tails = ['Read timed out. (read timeout=9.99)', 'Read timed out. (read timeout=30)', 'Read timed out.',
+             '(read timeout=1.2.3)', '(read timeout=.)', '(read timeout=09.990)', '(read timeout=9.99', 'read timeout=9.99)',
+             '(read timeout=9.99)x(read timeout=30)', "Failed to establish a new connection: [Errno 111] refused", '', 'x): y',
+             'a\nb', '(read timeout=9.99)\n']
+    prefixes = ['', "HTTPConnectionPool(host='h', port=5988): ", "HTTPSConnectionPool(host='h', port=5989): ",
+                "HTTPConnectionPool(host='a, port=1): b', port=2): ", "WBEMConnection(url='http://h', creds=None): ",
+                "WBEMConnection(url=x): ", "WBEMConnectionX", '<urllib3.connection.HTTPConnection object at 0x7f>: ',
+                '<x>, ', '<>: ', '<a\nb>: ', 'HTTPConnectionPool(host=h): ']
+    quotes = ['', '"', "'"]
+    names = ['ReadTimeoutError', 'NewConnectionError', 'ProtocolError', 'SSLError', 'Read1', '', 'ReadTimeoutError ']
+    n = 0
+    for nm in names:
+        for pre in prefixes:
+            for tl in tails:
+                n += 1
+                if nm != 'ReadTimeoutError' and n % 5:
+                    continue
+                q = quotes[n % 3]
+                inner = q + pre + tl + q
+                for msg in ('HTTPConnectionPool(host=h, port=1): Max retries exceeded with url: /cimom (Caused by %s(%s))' % (nm, inner),):
+                    e = ux.MaxRetryError(None, 'u', None)
+                    e.args = (msg + ('\n' if n % 7 == 0 else ''),)
+                    out.append(e if n % 2 else rx.ConnectionError(e))
+    for tl in tails:
+        e = ux.MaxRetryError(None, 'u', None)
+        e.args = (tl,)
+        out.append(e)
+        e2 = ux.ReadTimeoutError(None, 'u', tl)
+        out.append(rx.ReadTimeout(e2))
+        out.append(rx.ConnectionError(tl))
+    for cls in (rx.ConnectionError, rx.SSLError, rx.ReadTimeout, rx.RetryError, rx.ConnectTimeout):
+        out.append(cls(12345))
+        out.append(cls(ux.MaxRetryError(None, 'u', ux.ReadTimeoutError(None, 'u', 'Read timed out. (read timeout=9.99)'))))
+        out.append(cls(ux.MaxRetryError(None, 'u', ux.ReadTimeoutError(None, 'u', 'Read timed out. (read timeout=30)'))))
+    e = ux.MaxRetryError(None, 'u', None)
+    e.args = (object(),)
+    out.append(e)
+    # exceptions without arguments
+    for cls in (rx.ConnectionError, rx.SSLError, rx.ReadTimeout, rx.RetryError, rx.RequestException):
+        out.append(cls())
+    e = ux.MaxRetryError(None, 'u', None)
+    e.args = ()
+    out += [e, ux.ProtocolError(), ux.HTTPError(), rx.ConnectionError(ux.ProtocolError())]
     return out
 
 
@@ -1170,3 +1219,31 @@ def systematic_mutants(t):
                 c = copy.deepcopy(t)
                 node_at(c, p)[2] = [v] if v else []
                 yield 'sys:text:' + n[0], c
+
+
+def describe_transport_exc(e, T):
+    """what pywbem_requests_exception / pywbem_urllib3_exception look at, for the model (Transport.PostOutcome);
+    registers the numeric texts of the message with the float() oracle table T"""
+    import re
+    import requests.exceptions as rx
+    from requests.packages import urllib3
+    ux = urllib3.exceptions
+
+    def u3(x):
+        a0 = None if not x.args else (x.args[0] if isinstance(x.args[0], str) else str(x.args[0]))
+        if a0 is not None:
+            for t in re.findall(r'[0-9.]+', a0)[:50]:
+                T.text(t)
+        return {'isMaxRetry': isinstance(x, ux.MaxRetryError), 'className': cimproto.cps(type(x).__name__),
+                'arg0': cimproto.ocps(a0)}
+    if isinstance(e, rx.RequestException):
+        kind = ('ssl' if isinstance(e, rx.SSLError) else 'readTimeout' if isinstance(e, rx.ReadTimeout) else
+                'retry' if isinstance(e, rx.RetryError) else 'other')
+        if not e.args:
+            arg = {'t': 'missing'}
+        elif isinstance(e.args[0], ux.HTTPError):
+            arg = {'t': 'u3', 'e': u3(e.args[0])}
+        else:
+            arg = {'t': 'str', 's': cimproto.cps(e.args[0] if isinstance(e.args[0], str) else str(e.args[0]))}
+        return {'lib': 'requests', 'kind': kind, 'arg': arg}
+    return {'lib': 'urllib3', 'e': u3(e)}
